@@ -1404,6 +1404,13 @@ func main() {
 			decisionFunc("driver/netconf/driver.go", "Driver.storeMessage"), decisionFunc("driver/netconf/driver.go", "Driver.getMessage"))
 		fmt.Fprintf(&sw, "(* driver/netconf/rpc.go Driver.sendRPC (the polling goroutine as one effect) *)\nDefinition send_rpc_code : list dstmt :=\n  %s.\n",
 			decisionFunc("driver/netconf/rpc.go", "Driver.sendRPC", "@opaque-go"))
+		{
+			var ru []string
+			for _, fn := range []string{"Channel.ReadUntilFuzzy", "Channel.ReadUntilExplicit", "Channel.ReadUntilPrompt", "Channel.ReadUntilAnyPrompt"} {
+				ru = append(ru, fmt.Sprintf("  (%s,\n   %s)", q(fn), decisionFunc("channel/read.go", fn)))
+			}
+			fmt.Fprintf(&sw, "(* channel/read.go: the read-until functions *)\nDefinition read_until_code : list (string * list dstmt) := [\n%s].\n", strings.Join(ru, ";\n"))
+		}
 		// the loops that apply an option list to an object (C19)
 		var ol []string
 		for _, lf := range [][2]string{{"driver/generic/driver.go", "NewDriver"}, {"driver/network/driver.go", "NewDriver"}, {"driver/netconf/driver.go", "NewDriver"},
